@@ -763,7 +763,7 @@ def _k4_obligations(tier: str) -> List[Ob]:
     phases = _k4.HEADERS if thorough else ('setup', 'act', 'assert')
     body = ('i', 'di', 'src')
     if thorough:
-        blocks = [[phases, 'comment', body], [phases, 'm', 'src', 'eof'], [('setup', 'act', 'cleanup'), 'i', 'blank']]
+        blocks = [[phases, 'comment', body], [('setup', 'act', 'assert', 'conf'), 'm', 'src', 'eof'], [('setup', 'act', 'cleanup'), 'i', 'blank']]
     else:
         blocks = [[phases, 'comment', body], [phases, 'm', 'src', 'eof']]
     perms = list(itertools.permutations(range(len(blocks))))
